@@ -106,6 +106,15 @@ fn frame_cases(ctx: &mut Ctx, bytes: &[u8], desc: &str) -> bool {
     ctx.out.case(&format!("c14top {layout} {} {}", hex(&bytes[mhdr.1 + 8..mhdr.1 + 8 + mhdr.2]), crate::c18_wdt::canon_rle(&bytes[mcin.1 + 8..mcin.1 + 8 + mcin.2])), "ok");
     // inside every terrain chunk: header offsets against the sub-chunk layout (a sample of chunks in the quick tier)
     let mcnks: Vec<&(String, usize, usize)> = top.iter().filter(|c| c.0 == "MCNK").collect();
+    // (I) the chunk index read straight from the bytes: entry i is the i-th terrain chunk (its header position and its
+    // payload size, as the writer and the model have it), unused entries are empty
+    { let tab = &bytes[mcin.1 + 8..mcin.1 + 8 + mcin.2];
+      for i in 0..(tab.len() / 16).min(256) {
+          let off = u32::from_le_bytes([tab[16 * i], tab[16 * i + 1], tab[16 * i + 2], tab[16 * i + 3]]) as usize;
+          let size = u32::from_le_bytes([tab[16 * i + 4], tab[16 * i + 5], tab[16 * i + 6], tab[16 * i + 7]]) as usize;
+          let ok = match mcnks.get(i) { Some(c) => off == c.1 && size == c.2, None => off == 0 && size == 0 };
+          if !ok { let at = if off + 4 <= bytes.len() { String::from_utf8_lossy(&bytes[off..off + 4]).chars().rev().collect::<String>() } else { "beyond the file".into() };
+              ctx.out.oracle(false, "chunk-index-entry-does-not-point-at-its-terrain-chunk", &format!("entry {i}: offset {off} size {size} (there: {at}); terrain chunk {i} is at {:?} :: {desc}", mcnks.get(i).map(|c| (c.1, c.2)))); break; } } }
     for (i, c) in mcnks.iter().enumerate() {
         if !ctx.thorough && i % 37 != 0 && i != mcnks.len() - 1 { continue; }
         if c.2 < 136 { ctx.out.oracle(false, "terrain-chunk-shorter-than-header", desc); return false; }
@@ -137,6 +146,22 @@ pub fn run(ctx: &mut Ctx) {
         if ver >= AdtVersion::TBC && combo & 1 != 0 { feats.push("mfbo"); b = b.add_flight_bounds(MfboChunk { max_plane: [rng.next() as i16; 9], min_plane: [rng.next() as i16; 9] }); }
         if ver >= AdtVersion::WotLK && combo & 2 != 0 { feats.push("mh2o"); b = b.add_water_data(water(rng)); }
         if ver >= AdtVersion::WotLK && combo & 4 != 0 { feats.push("mtxf"); b = b.add_texture_flags(MtxfChunk { flags: (0..nt).map(|i| if i == 0 { 1 + rng.below(3) as u32 } else { rng.below(4) as u32 }).collect() }); }
+        // MoP: texture height parameters and the four blend-mesh chunks (they sit between the texture chunks and the terrain
+        // chunks, so every offset recorded for what follows has to account for them)
+        if ver >= AdtVersion::MoP && (k / 6) % 3 != 0 {
+            use wow_adt::chunks::blend_mesh::{MbbbChunk, MbbbEntry, MbmhChunk, MbmhEntry, MbmiChunk, MbnvChunk, MbnvVertex};
+            use wow_adt::chunks::{MtxpChunk, TextureHeightParams};
+            feats.push("mtxp"); b = b.add_texture_params(MtxpChunk { entries: (0..nt).map(|i| TextureHeightParams { flags: i as u32 % 2, height_scale: f(rng), height_offset: f(rng), padding: 0 }).collect() });
+            if (k / 6) % 3 == 2 {
+                feats.push("blendmesh");
+                let nv = 3 * rng.range(1, 4) as usize;
+                let vertex = |rng: &mut Rng| MbnvVertex { position: [f(rng), f(rng), f(rng)], normal: [0.0, 0.0, 1.0], uv: [f(rng), f(rng)], color: [[rng.next() as u8; 4]; 3] };
+                b = b.add_blend_mesh_headers(MbmhChunk { entries: vec![MbmhEntry { map_object_id: 1 + rng.below(9) as u32, texture_id: 0, unknown: 0, mbmi_count: nv as u32, mbnv_count: nv as u32, mbmi_start: 0, mbnv_start: 0 }] })
+                    .add_blend_mesh_bounds(MbbbChunk { entries: vec![MbbbEntry { map_object_id: 1, min: [f(rng), f(rng), f(rng)], max: [f(rng), f(rng), f(rng)] }] })
+                    .add_blend_mesh_vertices(MbnvChunk { vertices: (0..nv).map(|_| vertex(rng)).collect() })
+                    .add_blend_mesh_indices(MbmiChunk { indices: (0..nv as u16).collect() });
+            }
+        }
         if ver >= AdtVersion::Cataclysm && mamp_on { feats.push("mamp"); b = b.add_texture_amplifier(MampChunk { amplifier: rng.below(4) as u32 }); }
         // populated terrain chunks: taken from a parsed minimal tile of this version and then filled with optional sub-chunks
         let pop = *rng.pick(&[0usize, 0, 1, 3, 256]);
